@@ -160,11 +160,15 @@ func indirectToStringerOrError(a interface{}) interface{} {
 		return nil
 	}
 	v := reflect.ValueOf(a)
-	for !v.Type().Implements(fmtStringerType) && !v.Type().Implements(errorType) && v.Kind() == reflect.Ptr && !v.IsNil() {
+	for n := 0; n < maxIndirections && !v.Type().Implements(fmtStringerType) && !v.Type().Implements(errorType) && v.Kind() == reflect.Ptr && !v.IsNil(); n++ {
 		v = v.Elem()
 	}
 	return v.Interface()
 }
+
+// maxIndirections bounds the number of pointers that are followed to reach a base type. A
+// value of a type such as `type P *P` can point to itself.
+const maxIndirections = 100
 
 // Indirect returns the value, after dereferencing as many times
 // as necessary to reach the base type (or nil).
@@ -177,7 +181,7 @@ func Indirect(a interface{}) interface{} {
 		return a
 	}
 	v := reflect.ValueOf(a)
-	for v.Kind() == reflect.Ptr && !v.IsNil() {
+	for n := 0; n < maxIndirections && v.Kind() == reflect.Ptr && !v.IsNil(); n++ {
 		v = v.Elem()
 	}
 	return v.Interface()
